@@ -21,6 +21,8 @@ T(id) == CASE id = 1 -> <<83,69,76,69,67,84,32,36,49,32,65,83,32,118,32,70,82,79
            [] id = 5 -> <<83,69,76,69,67,84,32,36,49,32,65,83,32,97,44,32,36,50,32,65,83,32,98,32,70,82,79,77,32,100,117,97,108,32,45,45,32,36,49>>              \* SELECT $1 AS a, $2 AS b FROM dual -- $1
            [] id = 7 -> <<83,69,76,69,67,84,32,36,49,32,65,83,32,97,32,70,82,79,77,32,100,117,97,108,32,45,45,9,36,49>>      \* SELECT $1 AS a FROM dual --<TAB>$1
            [] id = 8 -> <<83,69,76,69,67,84,32,36,49,32,65,83,32,97,32,70,82,79,77,32,100,117,97,108,32,45,45,10,32,87,72,69,82,69,32,49,32,61,32,49,32,45,45,13,36,49>>      \* ... --<LF> WHERE 1 = 1 --<CR>$1
+           [] id = 9 -> <<83,69,76,69,67,84,32,97,32,65,83,32,96,100,105,114,92,96,44,32,39,96,32,36,49,39,32,65,83,32,108,105,116,44,32,36,49,32,65,83,32,118,32,70,82,79,77,32,116,32,87,72,69,82,69,32,97,32,61,32,55>>
+                        \* SELECT a AS `dir\`, '` $1' AS lit, $1 AS v FROM t WHERE a = 7   (a backslash has no meaning inside back quotes)
            \* templates that leave the lexer in the middle of something (used as the earlier call of a history)
            [] id = 20 -> <<83,69,76,69,67,84,32,49,32,47,42,32,107,101,121,115,58,32,117,115,101,114,47,42,32,97,110,100,32,103,114,111,117,112,47,42,32,42,47,32,70,82,79,77,32,100,117,97,108>>
            [] id = 21 -> <<83,69,76,69,67,84,32,49,32,47,42,32,47,42>>
